@@ -818,6 +818,7 @@ IndexStack indexStackOf(const VariablePtr &variable)
 
 void recordVariableEquivalences(const ComponentPtr &component, EquivalenceMap &equivalenceMap, IndexStack &indexStack)
 {
+    auto model = owningModel(component);
     for (size_t index = 0; index < component->variableCount(); ++index) {
         auto variable = component->variable(index);
         for (size_t j = 0; j < variable->equivalentVariableCount(); ++j) {
@@ -825,6 +826,10 @@ void recordVariableEquivalences(const ComponentPtr &component, EquivalenceMap &e
                 indexStack.push_back(index);
             }
             auto equivalentVariable = variable->equivalentVariable(j);
+            if ((model == nullptr) || (owningModel(equivalentVariable) != model)) {
+                // An index stack only locates a variable in the model of this component.
+                continue;
+            }
             auto equivalentVariableIndexStack = indexStackOf(equivalentVariable);
             if (equivalenceMap.count(indexStack) == 0) {
                 equivalenceMap.emplace(indexStack, std::vector<IndexStack>());
